@@ -144,6 +144,7 @@ type sched struct {
 	userData any
 	mainDone bool
 	atoms    map[uintptr]*VC
+	sites    bool
 }
 
 // S is the scheduler of the execution in progress (one execution at a time per process).
@@ -174,7 +175,12 @@ func Logf(format string, a ...any) {
 // Step returns the global step counter; NowTicks the virtual instant.
 func Step() int       { return S.step }
 func NowTicks() int64 { return S.now }
-func ThreadID() int   { return cur().id }
+func ThreadID() int {
+	if S == nil || S.cur == nil {
+		return -1
+	}
+	return S.cur.id
+}
 
 type choice struct {
 	th      *thread // nil = clock
@@ -379,20 +385,35 @@ func (s *sched) schedule(me *thread) {
 			s.endExecution(me)
 			return
 		}
-		// canonical order: running thread first, then ascending ids, clock last
+		// environment events that are due fire at once, atomically and in (instant, seq)
+		// order: each only makes channels ready, so their mutual order is unobservable;
+		// what the woken threads do next is explored by the thread choices below.
+		for {
+			due := s.dueEvents()
+			if len(due) == 0 {
+				break
+			}
+			for _, e := range due {
+				e.dead = true
+				prev := s.cur
+				s.cur = nil
+				if s.logOn {
+					s.ex.Log = append(s.ex.Log, LogEntry{s.step, s.now, -1, "event " + e.label})
+				}
+				evVC = e.vc
+				e.fire()
+				evVC = nil
+				s.cur = prev
+			}
+			s.removeDead()
+		}
+		// canonical order: running thread first, then ascending ids
 		chs := buf[:0]
 		curEnabled := false
 		if me != nil && !me.finished && !s.curIsClock {
 			n := len(chs)
 			chs = s.choicesFor(me, chs)
 			curEnabled = len(chs) > n
-		}
-		var due []*event
-		if s.curIsClock {
-			due = s.dueEvents()
-			for _, e := range due {
-				chs = append(chs, choice{ev: e})
-			}
 		}
 		for _, t := range s.threads {
 			if t.finished {
@@ -406,12 +427,6 @@ func (s *sched) schedule(me *thread) {
 				continue
 			}
 			chs = s.choicesFor(t, chs)
-		}
-		if !s.curIsClock {
-			due = s.dueEvents()
-			for _, e := range due {
-				chs = append(chs, choice{ev: e})
-			}
 		}
 		if len(chs) == 0 {
 			// quiescent: advance virtual time or end
@@ -471,21 +486,6 @@ func (s *sched) schedule(me *thread) {
 		c := chs[idx]
 		if s.trackStates {
 			s.ex.StateHashes[s.stateHash()] = struct{}{}
-		}
-		if c.ev != nil {
-			// clock action, executed inline by whoever holds the baton
-			c.ev.dead = true
-			s.curIsClock = true
-			prev := s.cur
-			s.cur = nil
-			if s.logOn {
-				s.ex.Log = append(s.ex.Log, LogEntry{s.step, s.now, -1, "event " + c.ev.label})
-			}
-			evVC = c.ev.vc
-			c.ev.fire()
-			evVC = nil
-			s.cur = prev
-			continue
 		}
 		t := c.th
 		s.curIsClock = false
@@ -717,12 +717,13 @@ type Config struct {
 	MaxSteps    int
 	TrackStates bool
 	Log         bool
+	Sites       bool // capture source locations of accesses (slow; used when re-running a failing schedule)
 }
 
 // RunOnce runs body as thread 0 under the scheduler, following prefix then default choices.
 func RunOnce(cfg Config, prefix []int, body func()) *Exec {
 	s := &sched{prefix: prefix, maxSteps: cfg.MaxSteps, done: make(chan struct{}), ex: &Exec{StateHashes: map[uint64]struct{}{}},
-		shadow: map[uintptr]*shadowCell{}, atoms: map[uintptr]*VC{}, trackStates: cfg.TrackStates, logOn: cfg.Log}
+		shadow: map[uintptr]*shadowCell{}, atoms: map[uintptr]*VC{}, trackStates: cfg.TrackStates, logOn: cfg.Log, sites: cfg.Sites}
 	if s.maxSteps == 0 {
 		s.maxSteps = 20000
 	}
